@@ -2,7 +2,9 @@
 (* C04, staleness part: two trees over one leaf set, their cached           *)
 (* bipartition encodings, and every history of                               *)
 (*   SwapTaxa(i, a, b), Regraft(i, x, y)  structural edits WITHOUT           *)
-(*                                         update_bipartitions               *)
+(*   Reroot(i, x)                          update_bipartitions               *)
+(*   SetRooted(r)                         the rooting state of both trees    *)
+(*   PruneTaxon(a)                        one leaf removed from both trees   *)
 (*   Encode(i)                            tree.encode_bipartitions()         *)
 (*   Dist(kind, flag)                     a distance call with               *)
 (*                                         is_bipartitions_updated = flag    *)
@@ -11,11 +13,15 @@
 (* that with default arguments this is the definition on the CURRENT         *)
 (* structure.  ReencodeBoth = FALSE models the regression "only the first    *)
 (* tree is re-encoded" (TLC must find DefaultFresh violated: non-vacuity).   *)
+(* ns = "diff": the two trees are over different namespace objects; then     *)
+(* every distance call is refused, whatever the flag and whatever is cached  *)
+(* (NsCheckFirst = FALSE models "the check sits behind the fast path for     *)
+(* is_bipartitions_updated=True with both encodings present").               *)
 (*****************************************************************************)
 EXTENDS TreeCompare
-CONSTANTS MaxOps, ReencodeBoth, StartPairs, EditsUpTo, MaxEdits, DistKinds
-VARIABLES t1, t2, c1, c2, nops, nedits
-vars == <<t1, t2, c1, c2, nops, nedits>>
+CONSTANTS MaxOps, ReencodeBoth, StartPairs, EditsUpTo, MaxEdits, DistKinds, NsCheckFirst
+VARIABLES t1, t2, c1, c2, nops, nedits, ns
+vars == <<t1, t2, c1, c2, nops, nedits, ns>>
 
 \* start trees over 4 leaves, all lengths present (node index pattern), both rootings
 P7a == <<0, 1, 2, 2, 1, 5, 5>>       \* ((1,2),(3,4))
@@ -31,12 +37,12 @@ Starts == <<
     <<Mk(P7b, <<4, 3, 2, 1>>, 0), Mk(P7a, <<1, 4, 2, 3>>, 0)>> >>
 
 Init == /\ \E k \in StartPairs : t1 = Starts[k][1] /\ t2 = Starts[k][2]
-        /\ c1 = NoCache /\ c2 = NoCache /\ nops = 0 /\ nedits = 0
+        /\ c1 = NoCache /\ c2 = NoCache /\ nops = 0 /\ nedits = 0 /\ ns \in {"same", "diff"}
 
 T(i) == IF i = 1 THEN t1 ELSE t2
-Step == nops < MaxOps /\ nops' = nops + 1
+Step == nops < MaxOps /\ nops' = nops + 1 /\ UNCHANGED ns
 EditOk == nops < EditsUpTo       \* the last operations of a history are distance calls
-IsEdit == EditOk /\ nedits < MaxEdits /\ nedits' = nedits + 1
+IsEdit == EditOk /\ ns = "same" /\ nedits < MaxEdits /\ nedits' = nedits + 1
 NoEdit == UNCHANGED nedits
 SetTree(i, g) == IF i = 1 THEN t1' = g /\ UNCHANGED t2 ELSE t2' = g /\ UNCHANGED t1
 
@@ -55,16 +61,31 @@ SwapTaxa(i, a, b) == Step /\ IsEdit /\ a < b /\ a \in TreeTx(T(i)) /\ b \in Tree
                      /\ SetTree(i, SwapTaxaOp(T(i), a, b)) /\ UNCHANGED <<c1, c2>>
 Regraft(i, x, y) == Step /\ IsEdit /\ RegraftOk(T(i), x, y)
                     /\ SetTree(i, RegraftOp(T(i), x, y)) /\ UNCHANGED <<c1, c2>>
+\* the rooting state of both trees (is_rooted = ...)
+SetRooted(r) == Step /\ IsEdit /\ t1.rooted # r /\ t1' = SetRootedOp(t1, r) /\ t2' = SetRootedOp(t2, r) /\ UNCHANGED <<c1, c2>>
+\* reroot_at_node on a rooted tree: the seed moves to the internal node x
+Reroot(i, x) == Step /\ IsEdit /\ t1.rooted = 1 /\ t2.rooted = 1 /\ x \in Internals(T(i)) \ {T(i).seed}
+                /\ SetTree(i, Reseed(T(i), x)) /\ UNCHANGED <<c1, c2>>
+\* the leaf carrying taxon a is pruned from both trees (they keep one leaf set)
+PruneOk(g, a) == a \in TreeTx(g) /\ Cardinality(TreeTx(g)) >= 4 /\ Len(g.kids[g.par[LeafOfTaxon(g, a)]]) >= 2
+PruneTaxon(a) == Step /\ IsEdit /\ PruneOk(t1, a) /\ PruneOk(t2, a)
+                 /\ t1' = RemoveLeaf(t1, LeafOfTaxon(t1, a)) /\ t2' = RemoveLeaf(t2, LeafOfTaxon(t2, a)) /\ UNCHANGED <<c1, c2>>
 Encode(i) == Step /\ EditOk /\ NoEdit /\ UNCHANGED <<t1, t2>>
              /\ IF i = 1 THEN c1' = CacheOf(t1) /\ UNCHANGED c2 ELSE c2' = CacheOf(t2) /\ UNCHANGED c1
+\* trees over different namespace objects are refused before anything else happens
+Refused(flag) == ns = "diff" /\ (NsCheckFirst \/ ~(flag /\ c1.has /\ c2.has))
 \* the call (conditionally) re-encodes, then computes from the caches
-Dist(kind, flag) == Step /\ NoEdit /\ kind \in DistKinds /\ UNCHANGED <<t1, t2>>
-                    /\ c1' = AfterCall(t1, c1, flag, TRUE)
-                    /\ c2' = AfterCall(t2, c2, flag, ReencodeBoth)
-Result(kind) == FromCaches(kind, t1, c1', t2, c2')      \* meaningful in a Dist step
+DistEffect(flag) == IF Refused(flag) THEN UNCHANGED <<c1, c2>>
+                    ELSE /\ c1' = AfterCall(t1, c1, flag, TRUE)
+                         /\ c2' = AfterCall(t2, c2, flag, ReencodeBoth)
+Dist(kind, flag) == Step /\ NoEdit /\ kind \in DistKinds /\ UNCHANGED <<t1, t2>> /\ DistEffect(flag)
+Result(kind) == FromCaches(kind, t1, c1', t2, c2')      \* meaningful in a Dist step that is not refused
 
 Next == \/ \E i \in {1, 2}, a \in 1..4, b \in 1..4 : SwapTaxa(i, a, b)
         \/ \E i \in {1, 2}, x \in 1..7, y \in 1..7 : Regraft(i, x, y)
+        \/ \E i \in {1, 2}, x \in 1..7 : Reroot(i, x)
+        \/ \E r \in {0, 1} : SetRooted(r)
+        \/ \E a \in 1..4 : PruneTaxon(a)
         \/ \E i \in {1, 2} : Encode(i)
         \/ \E kind \in Kinds, flag \in BOOLEAN : Dist(kind, flag)
 Spec == Init /\ [][Next]_vars
@@ -72,21 +93,23 @@ Spec == Init /\ [][Next]_vars
 WF == WellFormed(t1) /\ WellFormed(t2) /\ TreeTx(t1) = TreeTx(t2) /\ HasAllLengths(t1) /\ HasAllLengths(t2)
 Fresh(g, c) == c.has /\ c.s = S(g)
 \* (s, s') is a distance call with the given flag; the state change does not depend on the kind
-IsDist(flag) == /\ nops' = nops + 1 /\ t1' = t1 /\ t2' = t2
-                /\ c1' = AfterCall(t1, c1, flag, TRUE) /\ c2' = AfterCall(t2, c2, flag, ReencodeBoth)
+IsDist(flag) == /\ nops' = nops + 1 /\ t1' = t1 /\ t2' = t2 /\ DistEffect(flag)
+SameNs(flag) == ns = "same" /\ IsDist(flag)
 \* default arguments: the value is the definition on the current structure, whatever was cached before
-DefaultFresh == [][IsDist(FALSE) => \A kind \in Kinds : Result(kind) = OnCurrent(kind, t1, t2)]_vars
+DefaultFresh == [][SameNs(FALSE) => \A kind \in Kinds : Result(kind) = OnCurrent(kind, t1, t2)]_vars
 \* after a default call both caches are current
-DefaultRefreshes == [][IsDist(FALSE) => Fresh(t1, c1') /\ Fresh(t2, c2')]_vars
+DefaultRefreshes == [][SameNs(FALSE) => Fresh(t1, c1') /\ Fresh(t2, c2')]_vars
 \* is_bipartitions_updated=True: the definition on the cached encodings (computed on demand if there is none)
-FlagUsesCaches == [][IsDist(TRUE) => \A kind \in SetKinds :
+FlagUsesCaches == [][SameNs(TRUE) => \A kind \in SetKinds :
                         Result(kind) = FromCaches(kind, t1, IF c1.has THEN c1 ELSE CacheOf(t1),
                                                         t2, IF c2.has THEN c2 ELSE CacheOf(t2))]_vars
 \* ... which is the current structure whenever the cached split sets are current (for the weighted kinds the
 \* model reads the lengths through the splits, an idealisation: on real traces they are judged only when no
 \* edit came after the last encoding)
-FlagOnFreshIsCurrent == [][(IsDist(TRUE) /\ (~c1.has \/ Fresh(t1, c1)) /\ (~c2.has \/ Fresh(t2, c2)))
+FlagOnFreshIsCurrent == [][(SameNs(TRUE) /\ (~c1.has \/ Fresh(t1, c1)) /\ (~c2.has \/ Fresh(t2, c2)))
                               => \A kind \in Kinds : Result(kind) = OnCurrent(kind, t1, t2)]_vars
 \* edits never touch a cache
 EditsKeepCaches == [][(t1' # t1 \/ t2' # t2) => (c1' = c1 /\ c2' = c2)]_vars
+\* different namespace objects: refused for every kind, both flag values, whatever is encoded
+DiffNsRefused == [][\A flag \in BOOLEAN : (ns = "diff" /\ IsDist(flag)) => Refused(flag)]_vars
 =============================================================================
